@@ -113,7 +113,7 @@ def make_replay(r, ob, pid, suite_dir):
         try:
             exe = build_native(spec, suite_dir, scratch, log)
             args = [] if spec.get("no_args") else _args_from_cex(spec, r["cex"])
-            rc, so, se, to, dt = C.run([exe] + args, scratch, 600, 8, log=log)
+            rc, so, se, to, dt = C.run([exe] + args, scratch, 600, spec.get("mem_gb", 8), log=log)
             doc["replay_args"] = args
             doc["replay_prog"] = spec["prog"]
             doc["native_output"] = (so + se)[-3000:]
@@ -150,7 +150,7 @@ def replay_file(path, pid, suite, suite_dir):
     scratch = tempfile.mkdtemp(prefix="rxv.replay.")
     try:
         exe = build_native(spec, suite_dir, scratch, [])
-        rc, so, se, to, dt = C.run([exe] + (doc.get("replay_args") or []), scratch, 600, 8)
+        rc, so, se, to, dt = C.run([exe] + (doc.get("replay_args") or []), scratch, 600, spec.get("mem_gb", 8))
         print(so + se)
         print("replay rc=%d (%s)" % (rc, "REPRODUCED" if rc == 1 else "not reproduced"))
         return 1 if rc == 1 else 0
